@@ -190,6 +190,16 @@ main(int argc, char *argv[])
 	}
 
 	for (i = 1; i < argc; ++i) {
+		static const char *const valopt[] = {"-L", "-l", "--dynamic-linker", "-I", "-D", "-U", "-include", "-idirafter", "-isystem", "-MF", "-MT", "-x", NULL};
+		int k;
+
+		/* the operand of an option that takes one is never an option itself, even if it is spelled "-o" */
+		for (k = 0; valopt[k] && strcmp(argv[i], valopt[k]) != 0; ++k)
+			;
+		if (valopt[k]) {
+			++i;
+			continue;
+		}
 		if (strcmp(argv[i], "-o") == 0 && i + 1 < argc)
 			out = argv[++i];
 	}
